@@ -503,26 +503,7 @@ func checkC20(c *mc.Ctx) {
 			size := 188 + cfg.k
 			// the options of the Demuxer survive a Rewind: a skipper that removes every packet with an odd
 			// continuity counter or of the null PID, a parser that replaces the data of the PAT
-			mk := func() *astits.Demuxer {
-				var opts []func(*astits.Demuxer)
-				if !auto {
-					opts = append(opts, astits.DemuxerOptPacketSize(size))
-				}
-				switch optName {
-				case "skipper":
-					opts = append(opts, astits.DemuxerOptPacketSkipper(func(p *astits.Packet) bool {
-						return p.Header.PID == 0x1fff || (p.Header.PID >= 0x100 && p.Header.PID < 0x1000 && p.Header.ContinuityCounter%2 == 1)
-					}))
-				case "parser":
-					opts = append(opts, astits.DemuxerOptPacketsParser(func(ps []*astits.Packet) ([]*astits.DemuxerData, bool, error) {
-						if ps[0].Header.PID == 0x11 {
-							return []*astits.DemuxerData{{PID: 0x11, PES: &astits.PESData{Data: []byte{byte(len(ps))}}}}, true, nil
-						}
-						return nil, false, nil
-					}))
-				}
-				return astits.NewDemuxer(context.Background(), bytes.NewReader(st.Bytes), opts...)
-			}
+			mk := func() *astits.Demuxer { return c20Demuxer(st.Bytes, auto, size, optName) }
 			fd := DrainData(mk(), len(st.Bytes))
 			fp := DrainPackets(mk(), len(st.Bytes))
 			var freshD, freshP []string
@@ -567,7 +548,7 @@ func checkC20(c *mc.Ctx) {
 			done := mc.ParFor(total, c.OverBudget, func(i int64) {
 				s, finalAPI := seqs[i/2], []string{"data", "packet"}[i%2]
 				d := mk()
-				det := map[string]any{"kind": "rewind", "stream": st.Name, "auto": auto, "option": optName, "ops": s, "then": "Rewind + drain " + finalAPI, "bytes": mc.Hex(st.Bytes)}
+				det := map[string]any{"kind": "rewind", "stream": st.Name, "auto": auto, "option": optName, "size": size, "ops": s, "then": "Rewind + drain " + finalAPI, "bytes": mc.Hex(st.Bytes)}
 				fail := func(sig, msg string) { det["message"] = msg; c.Rep.Report(sig, det) }
 				if p := mc.Catch(func() {
 					for _, op := range s {
@@ -629,6 +610,33 @@ func checkC20(c *mc.Ctx) {
 	}
 	c20Undetectable(c)
 	c.Ev.Require("rewind-after-consumption", "rewind-with-skipper-or-parser", "rewind-after-failed-detection")
+}
+
+// c20Demuxer builds the Demuxer of a C20 configuration (shared with the replayer). Options: a skipper
+// that removes every packet with an odd continuity counter on the elementary PIDs and the null PID, or
+// a parser that replaces the data of the SDT PID.
+func c20Demuxer(b []byte, auto bool, size int, optName string) *astits.Demuxer {
+	var opts []func(*astits.Demuxer)
+	if !auto {
+		if size == 0 {
+			size = 188
+		}
+		opts = append(opts, astits.DemuxerOptPacketSize(size))
+	}
+	switch optName {
+	case "skipper":
+		opts = append(opts, astits.DemuxerOptPacketSkipper(func(p *astits.Packet) bool {
+			return p.Header.PID == 0x1fff || (p.Header.PID >= 0x100 && p.Header.PID < 0x1000 && p.Header.ContinuityCounter%2 == 1)
+		}))
+	case "parser":
+		opts = append(opts, astits.DemuxerOptPacketsParser(func(ps []*astits.Packet) ([]*astits.DemuxerData, bool, error) {
+			if ps[0].Header.PID == 0x11 {
+				return []*astits.DemuxerData{{PID: 0x11, PES: &astits.PESData{Data: []byte{byte(len(ps))}}}}, true, nil
+			}
+			return nil, false, nil
+		}))
+	}
+	return astits.NewDemuxer(context.Background(), bytes.NewReader(b), opts...)
 }
 
 // c20Undetectable: inputs whose packet size cannot be auto-detected (a single packet, a truncated
